@@ -14,7 +14,7 @@
 * c15_raise_sites        for every detection site that is an exception: does the constructor /
                          function still raise on the canonical faulty argument (probe).
 * c15_max_*              the limits, found by probing the constructors (longest accepted value).
-* c15_cli_*              BEHAVIOURAL probe of rpft.cli.create_flows with the library call
+* c15_cli_*              BEHAVIOURAL probe of rpft.cli.main() (argv: create_flows ...) with the library call
                          replaced: on failure (exception, SystemExit) is the output path left
                          untouched and does the failure propagate; on success is the file the
                          json.dump(indent=4) of what the library returned.
@@ -37,6 +37,7 @@ from gen_tables import Refuse, coq_bool
 LEVELS = {"critical": 50, "fatal": 50, "error": 40, "exception": 40, "warning": 30, "warn": 30, "info": 20, "debug": 10}
 
 # code (Io/CliFlow.v cls_code), module, preferred function qualname, handler exception or None, message keyword or None
+# ORDINALS: position of the call among the logger calls of its function (fallback when the message was reworded)
 SITES = [
     (1, "rpft.parsers.creation.contentindexparser", "ContentIndexParser.__init__", None, "No content index"),
     (2, "rpft.parsers.creation.contentindexparser", "ContentIndexParser._process_content_index_table", None, "exactly one sheet_name"),
@@ -64,6 +65,7 @@ SITES = [
     (52, "rpft.parsers.creation.triggerparser", "TriggerParser.parse", "ValueError", None),
     (53, "rpft.parsers.creation.campaignparser", "CampaignParser.parse", "ValueError", None),
 ]
+ORDINALS = {2: 0, 4: 2, 5: 3, 10: 1, 12: 1, 13: 2, 20: 0, 21: 1, 41: 0, 42: 1}
 # sites that share the handler of another site
 ALIASES = {36: 35, 37: 35}
 
@@ -187,6 +189,8 @@ def _resolve_site(code, modname, func, handler, keyword, cache):
         return anyw[0]["level"]
     if func_exists and len(in_func) == 1:
         return in_func[0]["level"]
+    if func_exists and not anyw and code in ORDINALS and len(in_func) > ORDINALS[code]:
+        return in_func[ORDINALS[code]]["level"]      # reworded message: same position in the function
     if func_exists and len(in_func) == 0 and not anyw:
         return 0      # the function no longer logs anything at this site
     raise Refuse(f"C15 site {code}: cannot identify the logger call in {modname}.{func} "
@@ -386,13 +390,16 @@ def tables_c15(out, notes):
         def run_with(fake):
             with open(outp, "w") as f:
                 f.write(sentinel)
-            ns = types.SimpleNamespace(input=[wb], output=outp, format="csv", datamodels=None, tags=[])
             real = cli.converters.create_flows
             cli.converters.create_flows = fake
+            old_argv = sys.argv
+            sys.argv = ["rpft", "create_flows", "-f", "csv", "-o", outp, wb]
             sys.stderr = io.StringIO()
+            old_stdout = sys.stdout
+            sys.stdout = io.StringIO()
             try:
                 try:
-                    cli.create_flows(ns)
+                    cli.main()          # the command as `python -m rpft.cli` / the `rpft` script run it
                     how = "returned"
                 except Boom:
                     how = "exception"
@@ -403,6 +410,8 @@ def tables_c15(out, notes):
             finally:
                 cli.converters.create_flows = real
                 sys.stderr = old_stderr
+                sys.stdout = old_stdout
+                sys.argv = old_argv
             content = open(outp).read() if os.path.exists(outp) else None
             return how, content
 
